@@ -57,6 +57,9 @@ type c14Spec struct {
 	MaxRows int64  `json:"max_rows"` // MaxRowsPerRowGroup (row groups are then also cut inside Write)
 	PageBuf int    `json:"page_buf"` // PageBufferSize
 	Salt    int    `json:"salt"`
+	// Entry: the write entry point of the life ("" = GenericWriter.Write in
+	// batches; see c14Entries in entry.go)
+	Entry string `json:"entry,omitempty"`
 }
 
 // c14Cfg is the writer configuration under which the faults are injected.
@@ -67,7 +70,7 @@ type c14Cfg struct {
 }
 
 type c14Fault struct {
-	Kind string `json:"kind"` // none | err | short | full (every byte taken, full count AND an error)
+	Kind string `json:"kind"` // none | err | short | full (every byte taken, full count AND an error) | once (ONE write stops at k with an error, the destination works again afterwards)
 	K    int    `json:"k"`
 }
 
@@ -214,7 +217,7 @@ var errSinkFault = errors.New("c14: injected destination failure")
 // c14Sink is the destination: fault script of Sink/Model.v (sink_write).
 type c14Sink struct {
 	buf    []byte
-	kind   int  // 0 none, 1 error at k, 2 one short count at k, 3 full count with an error at k
+	kind   int  // 0 none, 1 error at k, 2 one short count at k, 3 full count with an error at k, 4 one error at k (transient)
 	erred  bool // a Write returned a non-nil error
 	k      int
 	fired  bool
@@ -269,6 +272,19 @@ func (s *c14Sink) write(n int, app func(m int), str bool) (int, error) {
 			return n, errSinkFault
 		}
 		return n, nil
+	case 4:
+		// a transient failure: the one write that reaches offset k stops there
+		// with an error, every later write is complete
+		if s.fired || pos+n <= s.k {
+			app(n)
+			return n, nil
+		}
+		m := s.k - pos
+		app(m)
+		s.fired = true
+		s.hitAt = s.call
+		s.erred = true
+		return m, errSinkFault
 	}
 	app(n)
 	return n, nil
@@ -328,7 +344,7 @@ func (env *c14Env) drive(sp *c14Spec, cfg c14Cfg, dst io.Writer, setCall func(in
 		}
 	}()
 	crand.Reader = &detRand{n: 14}
-	w := parquet.NewGenericWriter[c14Row](dst, env.options(sp, cfg)...)
+	w := env.openEntry(sp, cfg, dst)
 	groups := sp.rows()
 	do := func(name string, f func() error) {
 		setCall(len(calls))
@@ -336,9 +352,13 @@ func (env *c14Env) drive(sp *c14Spec, cfg c14Cfg, dst io.Writer, setCall func(in
 		calls[len(calls)-1].Err = f()
 	}
 	for g, rows := range groups {
-		for i := 0; i < len(rows); i += sp.Batch {
-			j := min(i+sp.Batch, len(rows))
-			do(fmt.Sprintf("Write#%d.%d", g, i/sp.Batch), func() error { _, err := w.Write(rows[i:j]); return err })
+		if w.group != nil {
+			do(fmt.Sprintf("%s#%d", w.name, g), func() error { return w.group(rows) })
+		} else {
+			for i := 0; i < len(rows); i += sp.Batch {
+				j := min(i+sp.Batch, len(rows))
+				do(fmt.Sprintf("%s#%d.%d", w.name, g, i/sp.Batch), func() error { return w.write(rows[i:j]) })
+			}
 		}
 		if g != len(groups)-1 {
 			do(fmt.Sprintf("Flush#%d", g), w.Flush)
@@ -389,6 +409,8 @@ func c14NewSink(f c14Fault) *c14Sink {
 		s.kind = 2
 	case "full":
 		s.kind = 3
+	case "once":
+		s.kind = 4
 	}
 	return s
 }
@@ -541,6 +563,16 @@ func (env *c14Env) layout(sp *c14Spec, cfg c14Cfg) (*c14Layout, error) {
 		lay.calls = append(lay.calls, cl.Name)
 	}
 	lay.closeCall = len(lay.calls) - 1
+	if !c14EntryModelled(sp.Entry) {
+		// an entry point that may copy or re-encode column chunks: the Write calls of
+		// the reference life and the module boundaries, no sites of Sink/Model.v (id 0:
+		// not registered with the oracle)
+		lay.sites = []c14Site{{kind: -1, start: 0, end: len(ref), pieces: rec.pieces}}
+		for _, r := range regions {
+			lay.bounds = append(lay.bounds, r.start)
+		}
+		return lay, nil
+	}
 	ri := 0
 	for _, p := range rec.pieces {
 		if p.n == 0 && len(lay.sites) > 0 {
@@ -652,7 +684,14 @@ func (cfg c14Cfg) bufSize() int {
 func (env *c14Env) check(sp *c14Spec, cfg c14Cfg, lay *c14Layout, f c14Fault, o *c14Outcome, mv string) bool {
 	c := env.c
 	rp := c14Replay{What: "sink", Spec: *sp, Cfg: cfg, Fault: f}
-	where := fmt.Sprintf("file %s (%d bytes), %s at offset %d, WriteBufferSize %d, page buffers %s, deferred bloom filters %q", sp.Name, len(lay.ref), f.Kind, f.K, cfg.bufSize(), cfg.Pool, cfg.Deferred)
+	entry := ""
+	if sp.Entry != "" {
+		entry = " written through " + sp.Entry + " (" + strings.Join(lay.calls, ", ") + ")"
+		if sp.MaxRows > 0 {
+			entry += fmt.Sprintf(" with MaxRowsPerRowGroup(%d)", sp.MaxRows)
+		}
+	}
+	where := fmt.Sprintf("file %s (%d bytes)"+entry+", %s at offset %d, WriteBufferSize %d, page buffers %s, deferred bloom filters %q", sp.Name, len(lay.ref), f.Kind, f.K, cfg.bufSize(), cfg.Pool, cfg.Deferred)
 	switch {
 	case o.Hang:
 		c.Violation("hang", "the writer did not return within the deadline: "+where, rp)
@@ -744,7 +783,13 @@ func (env *c14Env) sweep(sp *c14Spec, cfg c14Cfg, lay *c14Layout, kind string, k
 		}()
 	}
 	var answers []string
-	if c.HasOracle() && len(ks) > 0 {
+	mkind := kind
+	if kind == "once" {
+		// the model stops at the first reported error: up to there a transient
+		// error at offset k is the persistent one
+		mkind = "err"
+	}
+	if c.HasOracle() && len(ks) > 0 && lay.id > 0 {
 		var sb strings.Builder
 		for i, k := range ks {
 			if i > 0 {
@@ -752,7 +797,7 @@ func (env *c14Env) sweep(sp *c14Spec, cfg c14Cfg, lay *c14Layout, kind string, k
 			}
 			fmt.Fprint(&sb, k)
 		}
-		ans := c.Ask(fmt.Sprintf("c14.close 1 %d %d %s %s", lay.id, cfg.bufSize(), kind, sb.String()))
+		ans := c.Ask(fmt.Sprintf("c14.close 1 %d %d %s %s", lay.id, cfg.bufSize(), mkind, sb.String()))
 		answers = strings.Split(ans, ",")
 		if len(answers) != len(ks) {
 			c.Mismatch("corr:C14.close", "oracle answer", "-", core.Trunc(ans, 300), nil)
@@ -854,7 +899,7 @@ func runC14(c *core.Ctx) {
 	env.workdir = filepath.Join(c.OutDir, "pools")
 	_ = os.MkdirAll(env.workdir, 0o755)
 	defer os.RemoveAll(env.workdir)
-	c.Res.Rule = "files of 1-3 row groups (int64, dictionary string, optional plain string, repeated int32 columns; v1/v2 pages, snappy/zstd/gzip/none, bloom filters inline and deferred, page index, plaintext-footer and encrypted-footer encryption, MaxRowsPerRowGroup) written through Write batches / Flush / Close against a destination following a fault script: error at byte offset k, one short count with nil error at k, or the full count WITH an error from the one write that takes the byte before k (every byte accepted; one k inside every Write call of the fault-free reference run, thinned to about 32 (20 behind large buffers and file-backed page buffers) per configuration in the quick tier; main path and copy path; predicate: the destination returned an error => some call returns an error); for the first two kinds k = every offset (thorough, small files) or first 16, last 64, +-1 around every module boundary of the footer and a random stride (quick; +-2 and denser strides in thorough); x WriteBufferSize {0, 7, 100, default} x page buffers {default, 64-byte chunks, temp files} x bloom filters {inline, deferred in memory, deferred in files}. A case is one (file, configuration, fault); all are non-trivial (the fault lies inside the file). Plus every prefix length of every file through OpenFile + full read under the default file options and under 18 option sets (OptimisticRead x ReadBufferSize 1/7/8/9/64/65536/default, ReadBufferSize 16/64, SkipPageIndex, SkipBloomFilters, PrefetchBloomFilters, async read mode, SkipMagicBytes and combinations; encrypted files also under each of these WITHOUT the keys, complete file included: an error, never a panic; the data of every file plants trailers ending in PAR1 and in PARE; error class of the open compared with the model of the open stages under these options), ReadAt faults at every call index, File.ReadAt against the model, and failing page buffers. Copy over a source that lost its tail (every module boundary +-1 and a stride): WriteRowGroup per row group with the same options (verbatim), with another codec (column-wise re-encode) and of one MultiRowGroup over all row groups (segments packed column-wise); nil everywhere => the output reads back complete; after a failure three more rows are written and the writer closed: nil from both => the output reads back as the rows reported written plus the three. Copy path: every unencrypted file is copied with WriteRowGroup (same options, so that every column chunk is streamed from the source) x WriteBufferSize {0, 7, 100, default} x bloom filters {copied inline, deferred in memory, deferred in files}; each copied section (dictionary page, data pages, bloom filter) in turn delivers only {0, 1, n/2, n-1} of its n bytes exactly when it is copied; destination faults at the module boundaries of the copy and a stride. Reader's demand: the (offset, length) of every ReadAt of OpenFile + full read with ReadBufferSize {default, 64, 16} against the model's demand. Sources failing AFTER OpenFile x SeekToRow histories (seek.go): dedicated files whose column chunks hold many small pages (v1 and v2 pages, none/snappy, 1-2 row groups, one encrypted; thorough adds zstd, gzip, three row groups, encrypted footer) opened with and without page index (SkipPageIndex) x ReadBufferSize {default, 64}; then the source loses its tail (first byte, middle of the header, first, middle and last byte of the body of every page) or one ReadAt call fails (error, short count with io.EOF / io.ErrUnexpectedEOF / another error; every call of the history); read after one SeekToRow a third / two thirds into the row group or to its last row, or after a short seek, one batch and a seek far ahead, through the Pages of the column chunk, GenericReader with 1 and 17 rows per call and the deprecated Reader; predicate: what is delivered differs from what the same history delivers over the intact source only together with a non-EOF error, and is a prefix of it; model: seek_read_pages (pages returned, end | unexpected) for the Pages of a chunk after one seek over a truncated source. Bloom filter lookups over a source failing after OpenFile (bloom.go): files with filters on id and name (plain, gzip-compressed, encrypted) opened with default / SkipBloomFilters / PrefetchBloomFilters; then the reads starting in the filter section of one row group, or of every row group, fail ((0, err), or at most 3 bytes with io.EOF / io.ErrUnexpectedEOF / another error); first and last id of every row group, two absent ids, three stored names and an absent one are looked up through the filter of each chunk, BloomFilterFrom, MultiRowGroup, MergeRowGroups and ConvertRowGroup over all row groups; predicate: a stored value is never answered (false, nil), a failed read gives an error, also after the source recovered; model: c14.bloom (absent | maybe | failed from the per-filter clean answers, the faulted filter and whether answering takes a read). Wrapped destinations (wrappers.go): Filter/Transform/Dedupe/Multi row writers, their nesting, CopyRows / CopyPages / CopyValues over a destination failing at each of its calls with (0, err) | (n/2, err) | (n, err): some call of the caller returns an error."
+	c.Res.Rule = "files of 1-3 row groups (int64, dictionary string, optional plain string, repeated int32 columns; v1/v2 pages, snappy/zstd/gzip/none, bloom filters inline and deferred, page index, plaintext-footer and encrypted-footer encryption, MaxRowsPerRowGroup) written through Write batches / Flush / Close against a destination following a fault script: error at byte offset k, one short count with nil error at k, or the full count WITH an error from the one write that takes the byte before k (every byte accepted; one k inside every Write call of the fault-free reference run, thinned to about 32 (20 behind large buffers and file-backed page buffers) per configuration in the quick tier; main path and copy path; predicate: the destination returned an error => some call returns an error); for the first two kinds k = every offset (thorough, small files) or first 16, last 64, +-1 around every module boundary of the footer and a random stride (quick; +-2 and denser strides in thorough); x WriteBufferSize {0, 7, 100, default} x page buffers {default, 64-byte chunks, temp files} x bloom filters {inline, deferred in memory, deferred in files}. A case is one (file, configuration, fault); all are non-trivial (the fault lies inside the file). Plus every prefix length of every file through OpenFile + full read under the default file options and under 18 option sets (OptimisticRead x ReadBufferSize 1/7/8/9/64/65536/default, ReadBufferSize 16/64, SkipPageIndex, SkipBloomFilters, PrefetchBloomFilters, async read mode, SkipMagicBytes and combinations; encrypted files also under each of these WITHOUT the keys, complete file included: an error, never a panic; the data of every file plants trailers ending in PAR1 and in PARE; error class of the open compared with the model of the open stages under these options), ReadAt faults at every call index, File.ReadAt against the model, and failing page buffers. Copy over a source that lost its tail (every module boundary +-1 and a stride): WriteRowGroup per row group with the same options (verbatim), with another codec (column-wise re-encode) and of one MultiRowGroup over all row groups (segments packed column-wise); nil everywhere => the output reads back complete; after a failure three more rows are written and the writer closed: nil from both => the output reads back as the rows reported written plus the three. Copy path: every unencrypted file is copied with WriteRowGroup (same options, so that every column chunk is streamed from the source) x WriteBufferSize {0, 7, 100, default} x bloom filters {copied inline, deferred in memory, deferred in files}; each copied section (dictionary page, data pages, bloom filter) in turn delivers only {0, 1, n/2, n-1} of its n bytes exactly when it is copied; destination faults at the module boundaries of the copy and a stride. Reader's demand: the (offset, length) of every ReadAt of OpenFile + full read with ReadBufferSize {default, 64, 16} against the model's demand. Sources failing AFTER OpenFile x SeekToRow histories (seek.go): dedicated files whose column chunks hold many small pages (v1 and v2 pages, none/snappy, 1-2 row groups, one encrypted; thorough adds zstd, gzip, three row groups, encrypted footer) opened with and without page index (SkipPageIndex) x ReadBufferSize {default, 64}; then the source loses its tail (first byte, middle of the header, first, middle and last byte of the body of every page) or one ReadAt call fails (error, short count with io.EOF / io.ErrUnexpectedEOF / another error; every call of the history); read after one SeekToRow a third / two thirds into the row group or to its last row, or after a short seek, one batch and a seek far ahead, through the Pages of the column chunk, GenericReader with 1 and 17 rows per call and the deprecated Reader; predicate: what is delivered differs from what the same history delivers over the intact source only together with a non-EOF error, and is a prefix of it; model: seek_read_pages (pages returned, end | unexpected) for the Pages of a chunk after one seek over a truncated source. Bloom filter lookups over a source failing after OpenFile (bloom.go): files with filters on id and name (plain, gzip-compressed, encrypted) opened with default / SkipBloomFilters / PrefetchBloomFilters; then the reads starting in the filter section of one row group, or of every row group, fail ((0, err), or at most 3 bytes with io.EOF / io.ErrUnexpectedEOF / another error); first and last id of every row group, two absent ids, three stored names and an absent one are looked up through the filter of each chunk, BloomFilterFrom, MultiRowGroup, MergeRowGroups and ConvertRowGroup over all row groups; predicate: a stored value is never answered (false, nil), a failed read gives an error, also after the source recovered; model: c14.bloom (absent | maybe | failed from the per-filter clean answers, the faulted filter and whether answering takes a read). Bloom filter sections failing DURING OpenFile (default / SkipBloomFilters / PrefetchBloomFilters; (0, err) or short reads of at most 3 bytes, half, all but the last byte with io.EOF / io.ErrUnexpectedEOF / another error; the source recovers or keeps failing): OpenFile fails or no stored value is answered (false, nil) through any entry point. Write entry points (entry.go): files of one and two row groups, with MaxRowsPerRowGroup 10 / 6 cutting row groups inside the calls (one call for the whole input, batches of 4), through GenericWriter.Write, GenericWriter.WriteRows, Writer.WriteRows, Writer.Write(any), ReadRowsFrom, WriteRowGroup of a buffered row group and SortingWriter x WriteBufferSize {0, 7} x fault kinds error-at-k, short count, full count with an error, and the TRANSIENT error (one write stops at k with an error, then the destination works again: inside about 28 Write calls of the reference life and at the first byte of every module). VariantReader (variant.go): shredded variant files (objects with typed, mistyped, missing and unshredded fields, nulls, non-objects; v1/v2 pages, none/snappy, one and two row groups, ReadBufferSize default/96/256), windows of 7 and 32 rows, every ReadAt call of the history failing once ((0, err); short reads at every third call) or from then on x retry policy {SeekToRow(current row), Next again, SeekToRow(behind the window), SeekToRow(a window back)}: every window returned without error has the state of its rows over the intact source. Wrapped destinations (wrappers.go): Filter/Transform/Dedupe/Multi row writers, their nesting, CopyRows / CopyPages / CopyValues over a destination failing at each of its calls with (0, err) | (n/2, err) | (n, err): some call of the caller returns an error."
 
 	if c.HasOracle() {
 		if ans := c.Ask("c14.flags"); !strings.HasSuffix(ans, " 1") || strings.Contains(strings.Split(ans, " ")[0], "0") {
@@ -999,6 +1044,14 @@ func runC14(c *core.Ctx) {
 		}
 	}
 	env.fileReadAt(&specs[1])
+	// every write entry point x MaxRowsPerRowGroup x transient faults (entry.go)
+	{
+		t0 := time.Now()
+		env.entryPoints()
+		if os.Getenv("C14_TIMES") != "" {
+			fmt.Fprintf(os.Stderr, "c14: entry points: %v\n", time.Since(t0))
+		}
+	}
 	// sources failing after OpenFile x SeekToRow histories (seek.go)
 	{
 		t0 := time.Now()
@@ -1008,6 +1061,17 @@ func runC14(c *core.Ctx) {
 		}
 		if os.Getenv("C14_TIMES") != "" {
 			fmt.Fprintf(os.Stderr, "c14: seek scenario: %v\n", time.Since(t0))
+		}
+	}
+	// VariantReader over a source failing after OpenFile x retry histories (variant.go)
+	{
+		t0 := time.Now()
+		vspecs := c14VarSpecs(c)
+		for i := range vspecs {
+			env.variantFaults(&vspecs[i], nil)
+		}
+		if os.Getenv("C14_TIMES") != "" {
+			fmt.Fprintf(os.Stderr, "c14: variant scenario: %v\n", time.Since(t0))
 		}
 	}
 	if ents, err := os.ReadDir(env.workdir); err == nil && len(ents) > 0 {
@@ -2113,6 +2177,11 @@ func replayC14(c *core.Ctx, raw json.RawMessage) {
 	case "wrapper":
 		if lay, err := env.layout(sp, c14Cfg{Buf: -1, Pool: "default"}); err == nil {
 			env.wrappers(sp, lay.ref)
+		}
+	case "variant":
+		var vrp c14VarReplay
+		if err := json.Unmarshal(raw, &vrp); err == nil {
+			env.variantFaults(&vrp.Spec, &vrp)
 		}
 	case "bloom":
 		var brp c14BloomReplay
